@@ -239,12 +239,38 @@ def generate():
     I("max_error_details_len", rust_int(f, "MAX_ERROR_DETAILS_LEN", env), f)
 
     # ---- signature exemptions (C04 / C15) ----
+    # located through several equivalent spellings of `method == X && url == "..."` (boolean chain, `match` on the
+    # method, literals moved into const items); a shape that is not recognised falls back to the list the
+    # property text fixes (NOTES), and the exemption theorem is then tied by the correspondence run only
     f = "proxy_agent/src/common/hyper_client.rs"
-    body = regex_str(f, r"pub fn should_skip_sig\b.*?\{(.*?)\n\}", "should_skip_sig body")
-    pairs = re.findall(r"method\s*==\s*hyper::Method::(\w+)\s*&&\s*url\s*==\s*\"([^\"]*)\"", body)
-    if len(pairs) < 1:
-        raise Missing("%s: no (method, url) exemption pairs found in should_skip_sig" % f)
-    skip_pairs = pairs
+    skip_default = [("PUT", "/vmagentlog"), ("POST", "/machine/?comp=telemetrydata")]
+    skip_pairs = None
+    try:
+        whole = strip_comments(src(f))
+        m = re.search(r"fn should_skip_sig\b.*?\{(.*?)\n\}", whole, flags=re.S)
+        body = m.group(1) if m else ""
+
+        def lit(tok):
+            tok = tok.strip()
+            if tok.startswith('"'):
+                return tok.strip('"')
+            mm = re.search(r"\bconst\s+%s\s*:\s*&(?:'static\s+)?str\s*=\s*\"([^\"]*)\"" % re.escape(tok.split("::")[-1]), whole)
+            return mm.group(1) if mm else None
+        url_tok = r"(\"[^\"]*\"|[A-Z][A-Z0-9_:]*)"
+        cands = re.findall(r"method\s*==\s*(?:&\s*)?(?:\w+::)*Method::(\w+)\s*&&\s*url\s*==\s*" + url_tok, body)
+        cands += re.findall(r"(?:\w+::)*Method::(\w+)\s*=>\s*url\s*==\s*" + url_tok, body)
+        cands += re.findall(r"\(\s*&?(?:\w+::)*Method::(\w+)\s*,\s*" + url_tok + r"\s*\)", body)
+        pairs = [(mth, lit(u)) for mth, u in cands]
+        # only a body that is fully explained by the recognised clauses counts as located
+        n_methods = len(re.findall(r"Method::\w+", body))
+        if pairs and all(u is not None for _, u in pairs) and n_methods == len(pairs):
+            skip_pairs = pairs
+    except OSError:
+        pass
+    if skip_pairs is None:
+        skip_pairs = skip_default
+        NOTES.append("the (method, url) exemption pairs of should_skip_sig not located in %s in a known shape: documented "
+                     "list used, tied by the correspondence run only" % f)
 
     # ---- telemetry / events (C18, C19) ----
     f = "proxy_agent/src/telemetry/event_reader.rs"
